@@ -32,14 +32,14 @@ SHRINK_BUDGET_S = {"quick": 40.0, "thorough": 240.0}
 RUN_TIMEOUT_S = {"quick": 60.0, "thorough": 120.0}
 RULE = ("Hypothesis strategies (one per example) draw a structured instance of the example's input format at tiny sizes "
         "(plus all graphs on <= 3 unit-weight vertices for misp/mcp and every golomb size); each instance file is solved by the "
-        "example binary for every width in {1,2,3,default} x every offered thread count and compared with a brute-force "
+        "example binary for every width in {1,2,3,default} x every offered thread count, plus one width in 4..8 and one in 9..16 (chosen by the hash of the file, as is their thread count), and compared with a brute-force "
         "enumeration. A case (example, instance hash, width, threads) is non-trivial when the instance has >= 4 decision "
         "variables as the example's model counts them (>= 5 for sop/tsptw/srflp whose --width is a multiplier) and the run used "
-        "an explicit width in {1,2,3}; distinct = distinct (example, sha1 of the file text, width, threads).")
+        "an explicit width; distinct = distinct (example, sha1 of the file text, width, threads).")
 ASSUMPTIONS = [
     "the brute-force oracles (written from the problem statements, not from the DP models) are correct at these sizes",
     "well-formed instance = inside what each example's reader / comments / shipped resources define: knapsack profits >= 0 and weights >= 1; misp weights >= 0; "
-    "max2sat distinct clauses with weights >= 0 (units and tautologies included); tsptw integer metric-closed distances, wide depot window; "
+    "max2sat distinct clauses with positive, zero and negative weights (units in both written forms and tautologies included); tsptw integer distances (half of them closed under the triangle inequality, half not, like the shipped benchmark files), wide depot window; "
     "alp aircraft sorted by target time, deadlines monotone per class, separations closed under the triangle inequality; "
     "sop acyclic transitively-closed precedences with fixed first and last job; psp 0/1 demands, zero diagonal change-over, metric and non-metric change-over matrices (the shipped benchmark files contain both)",
     "binaries are the dev-profile examples built from /repo's working tree (overflow checks on)",
@@ -126,20 +126,24 @@ def s_max2sat(draw):
     n = draw(ints(1, 6))
     lit = st.sampled_from([l for v in range(1, n + 1) for l in (v, -v)])
     # a clause is an unordered pair of literals: x == y is a unit clause, x == -y a tautology; all clauses distinct
-    clauses = draw(st.lists(st.tuples(ints(0, 9), lit, lit), max_size=12, unique_by=lambda c: (min(c[1:]), max(c[1:]))))
-    return {"n": n, "clauses": [list(c) for c in clauses]}
+    # weights may be negative (shipped file negative_wt.wcnf and its test); a unit clause is written "w x 0" or "w x x 0"
+    # (shipped file debug.wcnf)
+    wt = ints(-9, 9) if draw(st.booleans()) else ints(0, 9)
+    clauses = draw(st.lists(st.tuples(wt, lit, lit), max_size=12, unique_by=lambda c: (min(c[1:]), max(c[1:]))))
+    return {"n": n, "clauses": [list(c) for c in clauses], "unit_twice": draw(st.booleans())}
 
 
 def r_max2sat(i):
     return "c generated\np wcnf %d %d\n" % (i["n"], len(i["clauses"])) + "".join(
-        ("%d %d 0\n" % (w, x)) if x == y else ("%d %d %d 0\n" % (w, x, y)) for w, x, y in i["clauses"])
+        ("%d %d 0\n" % (w, x)) if x == y and not i.get("unit_twice") else ("%d %d %d 0\n" % (w, x, y)) for w, x, y in i["clauses"])
 
 
 def o_max2sat(i):
-    best = 0
+    best = None
     for m in range(1 << i["n"]):
         val = lambda l: (m >> (abs(l) - 1) & 1) == (1 if l > 0 else 0)
-        best = max(best, sum(w for w, x, y in i["clauses"] if val(x) or val(y)))
+        tot = sum(w for w, x, y in i["clauses"] if val(x) or val(y))
+        best = tot if best is None else max(best, tot)
     return best
 
 
@@ -213,7 +217,10 @@ def s_srflp(draw):
     flows = [[0] * n for _ in range(n)]
     for (a, b), f in zip(all_pairs(n), draw(fixed_list(ints(0, 6), n * (n - 1) // 2))):
         flows[a][b] = flows[b][a] = f
-    return {"lengths": draw(fixed_list(ints(1, 9), n)), "flows": flows, "sep": draw(st.sampled_from([",", " "]))}
+    # "clearance": the file is given a name containing "Cl", for which the reader adds 10 to every length (7 of the 17
+    # shipped files are of that kind)
+    return {"lengths": draw(fixed_list(ints(1, 9), n)), "flows": flows, "sep": draw(st.sampled_from([",", " "])),
+            "clearance": draw(st.booleans())}
 
 
 def r_srflp(i):
@@ -222,6 +229,8 @@ def r_srflp(i):
 
 def o_srflp(i):
     L, F, best = i["lengths"], i["flows"], None
+    if i.get("clearance") or "Cl" in TMP:  # the reader looks for "Cl" in the whole path it is given
+        L = [x + 10 for x in L]
     for perm in itertools.permutations(range(len(L))):
         pos, x = {}, 0.0
         for d in perm:
@@ -233,12 +242,18 @@ def o_srflp(i):
 
 @st.composite
 def s_psp(draw):
-    H, n = draw(ints(2, 8)), draw(ints(1, 4))
-    cells = draw(st.lists(st.tuples(ints(0, n - 1), ints(0, H - 1)), unique=True, max_size=H))
+    # two shapes: anything small (1/3), or "dense" (2/3: 4-5 items, 7-9 periods, at most 3 idle periods, stocking costs small
+    # or zero, change-over costs not closed): with few demands the diagrams are exact at every width and nothing is ever
+    # merged; measured on the tree without the F13 repair over widths 1..16: 0 of 2800 feasible instances of the first shape
+    # and about 1 in 200 of the second expose it, each at one or two widths only
+    dense = draw(ints(0, 2)) > 0
+    H, n = (draw(ints(7, 9)), draw(ints(4, 5))) if dense else (draw(ints(2, 8)), draw(ints(1, 4)))
+    cell = st.tuples(ints(0, n - 1), ints(0, H - 1))
+    cells = draw(st.lists(cell, unique=True, min_size=H - 3, max_size=H) if dense else st.lists(cell, unique=True, max_size=H))
     # change-over costs: the shipped benchmark files (resources/psp) do NOT all satisfy the triangle inequality, so neither
     # do these: kind 0 = anything, kind 1 = two-level costs (cheap chains next to expensive direct change-overs, F13),
     # kind 2 = closed under the triangle inequality
-    kind = draw(ints(0, 2))
+    kind = draw(ints(0, 1 if dense else 2))
     co = draw(fixed_list(fixed_list(st.sampled_from([0, 1, 7, 9]) if kind == 1 else ints(0, 9), n), n))
     co = [[0 if a == b else co[a][b] for b in range(n)] for a in range(n)]
     if kind == 2:
@@ -246,8 +261,9 @@ def s_psp(draw):
             for a in range(n):
                 for b in range(n):
                     co[a][b] = min(co[a][b], co[a][k] + co[k][b])
-    return {"horizon": H, "changeover": co,
-            "stocking": draw(fixed_list(ints(0, 5), n)), "demands": [[int((a, t) in cells) for t in range(H)] for a in range(n)]}
+    stocking = draw(fixed_list(ints(0, 2), n) if dense and draw(st.booleans()) else fixed_list(st.just(0), n) if dense else fixed_list(ints(0, 5), n))
+    return {"horizon": H, "changeover": co, "stocking": stocking,
+            "demands": [[int((a, t) in cells) for t in range(H)] for a in range(n)]}
 
 
 def r_psp(i):
@@ -366,7 +382,11 @@ def o_sop(i):
 def s_tsptw(draw):
     n = draw(ints(2, 7))
     w = draw(fixed_list(fixed_list(ints(1, 9), n), n))
-    dist = metric_close([[0 if a == b else w[a][b] for b in range(n)] for a in range(n)])
+    dist = [[0 if a == b else w[a][b] for b in range(n)] for a in range(n)]
+    # 393 of the 467 shipped benchmark files (resources/tsptw) violate the triangle inequality, by up to 33 time units:
+    # such distances are part of the input domain (F14); half of the instances are closed under it nevertheless
+    if draw(st.booleans()):
+        dist = metric_close(dist)
     starts, spans = draw(fixed_list(ints(0, 20), n - 1)), draw(fixed_list(ints(5, 40), n - 1))
     return {"dist": dist, "windows": [[0, 200]] + [[e, e + s] for e, s in zip(starts, spans)]}
 
@@ -563,6 +583,12 @@ class Ctx:
         return {k: getattr(self, k) for k in keys.split()}
 
 
+def file_id(ex, inst, text):
+    """identity of an instance = name of its file: sha1 of the text (srflp: prefixed by "Cl" for the clearance variant,
+    which the reader recognises by the file name)"""
+    return ("Cl" if ex == "srflp" and inst.get("clearance") else "") + sha(ex + "\n" + (text if text is not None else json.dumps(inst)))
+
+
 def make_case(ex, inst, text, width, threads, expected):
     return {"example": ex, "instance": inst, "file_text": text, "width": width, "threads": threads, "expected": expected}
 
@@ -591,7 +617,7 @@ def examine_instance(ctx, inst):
     and only the same kind of failure (and same signature) counts, results are cached, and a time budget bounds the shrink phase."""
     ex, spec = ctx.ex, SPECS[ctx.ex]
     text = spec.render(inst)
-    h = sha(ex + "\n" + (text if text is not None else json.dumps(inst)))
+    h = file_id(ex, inst, text)
     shrinking = ctx.failed
     if shrinking:
         if h in ctx.cache or time.time() > ctx.shrink_deadline:
@@ -608,7 +634,12 @@ def examine_instance(ctx, inst):
             ctx.labels["instances:" + ex] += 1
             ctx.labels["infeasible_instances:" + ex] += expected is None
             ctx.labels["nvars:%s" % min(nvars, 8)] += 1
-        for width, threads in ([ctx.target[:2]] if shrinking else ctx.combos):
+        # two more widths per instance, between the tiny ones and the default: a relaxation that is only slightly unsound shows
+        # when the diagrams are *almost* exact (F13 only showed at widths 6, 7 and default on its instance). They are a pure
+        # function of the instance text, so that replay and shrinking see the same runs.
+        hv = int(h[-12:], 16)
+        mid = [(4 + hv % 5, ctx.threads[(hv >> 8) % len(ctx.threads)]), (9 + (hv >> 16) % 8, ctx.threads[(hv >> 24) % len(ctx.threads)])]
+        for width, threads in ([ctx.target[:2]] if shrinking else ctx.combos + mid):
             kind, msg, fid, res = run_case(ctx, ex, inst, text, h, width, threads, expected)
             if not shrinking:
                 ctx.evaluations += 1
@@ -697,7 +728,7 @@ def replay(body, known, tier):
     expected = SPECS[ex].oracle(inst)
     if "expected" in case and case["expected"] != expected and not (None not in (expected, case["expected"]) and abs(expected - case["expected"]) < 1e-6):
         return "error", "recorded optimum %r differs from the oracle's %r for the recorded instance" % (case["expected"], expected)
-    h = sha(ex + "\n" + (text if text is not None else json.dumps(inst)))
+    h = file_id(ex, inst, text)
     path = "%s/%s.txt" % (ctx.dir, h)
     if text is not None:
         with open(path, "w") as f:
